@@ -21,6 +21,18 @@ class Unfoldable(Exception):
     pass
 
 
+_REF = None
+
+
+def _reference() -> dict:
+    global _REF
+    if _REF is None:
+        from .alpha import load_reference
+
+        _REF = load_reference()
+    return _REF
+
+
 class EnumMember:
     """A member of an enum.Flag class recovered from its ClassDef."""
 
@@ -115,6 +127,11 @@ class Module:
         with open(path, encoding="utf-8") as f:
             self.source = f.read()
         self.tree = ast.parse(self.source, filename=path)
+        self.alpha_renamed = 0
+        if os.environ.get("VERIF_NO_ALPHA") != "1":
+            from .alpha import canonicalise, load_reference
+
+            self.alpha_renamed = canonicalise(name, self.tree, _reference())
         self.parents: dict = {}
         self.qual: dict = {}
         self.funcs: dict = {}
